@@ -272,10 +272,12 @@ class DiscretizedSpace(TensorSpace):
             is_uniformly_weighted = self.__is_uniformly_weighted
         except AttributeError:
             bdry_fracs = self.partition.boundary_cell_fractions
+            # The boundary cell fractions matter for every weighting
+            # constant, also if it (e.g., the cell volume) is exactly 1.0
             is_uniformly_weighted = (
                 np.allclose(bdry_fracs, 1.0) or
                 self.exponent == float('inf') or
-                not getattr(self.tspace, 'is_weighted', False))
+                not hasattr(self.tspace, 'weighting'))
 
             self.__is_uniformly_weighted = is_uniformly_weighted
 
